@@ -103,7 +103,13 @@ void Simulate::init_serial(
     if (serial_out == nullptr)
     {
       printf("Error opening outfile %s\n", out_name);
-      fclose(serial_in);
+
+      if (serial_in != nullptr)
+      {
+        fclose(serial_in);
+        serial_in = nullptr;
+      }
+
       return;
     }
   }
